@@ -16,7 +16,6 @@ that names it from that point: enclosing definition, module level, included subm
                (pointer-level walker: sharing, parent pointers) is empty.
   negative     unknown / out-of-scope / cyclic references: model and implementation both report an error.
 """
-import copy
 import random
 import shutil
 import tempfile
@@ -569,16 +568,21 @@ def get_at(node, steps):
     return node
 
 
-def drop_at(node, steps):
-    """remove the node at steps (from a deep copy)"""
+def drop_at(node, steps, undo):
+    """remove the node at steps in place; [undo] collects what is needed to put it back"""
     par = get_at(node, steps[:-1])
     if par is None:
         return
     s = steps[-1]
     if par.get("hasrpc") and s in ("input", "output"):
-        par.pop(s, None)
+        if s in par:
+            undo.append((par, s, par.pop(s)))
     else:
-        par["children"] = [c for c in (par.get("children") or []) if c["name"] != s]
+        old = par.get("children") or []
+        new = [c for c in old if c["name"] != s]
+        if len(new) != len(old):
+            undo.append((par, "children", old))
+            par["children"] = new
 
 
 def canon_forest(j, cuts, skip=("mz",)):
@@ -587,11 +591,13 @@ def canon_forest(j, cuts, skip=("mz",)):
     mods = sorted([m for m in run["modules"] if not m["sub"] and m["name"] not in skip], key=lambda m: m["name"].encode())
     out = []
     for m in mods:
-        t = copy.deepcopy(m["tree"])
+        undo = []
         for mn, steps in cuts:
             if mn == m["name"]:
-                drop_at(t, steps)
-        out.append(sg.canon_go_node(t))
+                drop_at(m["tree"], steps, undo)
+        out.append(sg.canon_go_node(m["tree"]))
+        for par, key, val in reversed(undo):
+            par[key] = val
     return " ".join(out)
 
 
@@ -695,6 +701,21 @@ def positive_fixed():
                          G(6, "k", [C("d2", [G(7, "h", [L("defh")]), G(8, "g2", [U("h")])])]),
                          C("a", [G(4, "h", [L("localh")]), C("zz", [L("q")])]),
                          ])]))
+    return out
+
+
+def regression_cases():
+    """(label, schema, expected defaults of /A/ll, of /B/ll): witnesses of repaired defects, kept as plain cases"""
+    def mod(body, devs):
+        return dict(name="m0", prefix="p0", ns="urn:m0", belongs=None, imports=[], includes=[], body=body, augments=[],
+                    deviations=devs)
+    out = []
+    for nd in (1, 2, 3, 4, 5, 7):
+        G = ("grouping", 1, "g", [("leaflist", "ll", "string", None, ["d%d" % i for i in range(nd)], None, None)])
+        body = [G, ("container", "A", None, [("uses", "g")]), ("container", "B", None, [("uses", "g")])]
+        devs = [("/p0:A/p0:ll", [dict(kind="add", default="x")]), ("/p0:B/p0:ll", [dict(kind="add", default="y")])]
+        base = ["d%d" % i for i in range(nd)]
+        out.append(("leaf-list-defaults-%d" % nd, [mod(body, devs)], base + ["x"], base + ["y"]))
     return out
 
 
@@ -902,7 +923,24 @@ def run(res, tier, seed, proof):
                       dict(kind="scoping", label=label, go_case=sg.go_case(s), ml_case=sg.model_case(s),
                            text="\n".join(sg.render_module(m) for m in s)))
 
-    evaluations = len(lines_go) + len(ind_lines) + len(neg) + len(pos)
+    # ---- repaired defects stay repaired: two instances of a leaf-list, one `deviate add default` on each
+    reg = regression_cases()
+    rgo = run_go([sg.go_case(x[1]) for x in reg])
+    rml = lib.run_ml([sg.model_case(x[1]) for x in reg])
+    stats["regression"] = len(reg)
+    for (label, sch, wa, wb), g, m in zip(reg, rgo, rml):
+        o, st, j = go_obs(g)
+        got = None
+        if st == "ok":
+            t = tree_of(j, "m0")
+            got = (get_at(t, ["A", "ll"]).get("default"), get_at(t, ["B", "ll"]).get("default"))
+        if st != "ok" or o != m or got != (wa, wb):
+            violation("independence: `deviate add default` on two instances of one leaf-list (%s): got %s, want %s; "
+                      "model %s" % (label, got, (wa, wb), "agrees" if o == m else "differs"),
+                      dict(kind="correspondence", go_case=sg.go_case(sch), ml_case=sg.model_case(sch),
+                           text="\n".join(sg.render_module(x) for x in sch)))
+
+    evaluations = len(lines_go) + len(ind_lines) + len(neg) + len(pos) + len(reg)
     cov = dict(
         evaluations=evaluations,
         distinct_nontrivial=stats["ok"] + stats["independence_single"] + stats["independence_double"],
